@@ -123,6 +123,11 @@ Proof. exact enum_inventory. Qed.
 Theorem C03_enum_instance_names_and_ids : forall e ns,
   map snd (inst_pairs e ns) = ns /\ (NoDup ns -> NoDup (map fst (inst_pairs e ns))).
 Proof. exact inst_pairs_names_and_ids. Qed.
+(* ... and that record is registered exactly once, under its id, in the flat enum dictionary; the body registers nothing there *)
+Theorem C03_front_enum_registered : forall al d pref_doc warn c st st' w m r,
+  walk_member al d pref_doc warn st (CMClass c) = Ok (st', w) -> is_enum_def c = true -> vs_stack st = FModule m :: r ->
+  exists e, vs_stack st' = FModule (mod_add_enum m e) :: r /\ vs_enums st' = dict_set (e_id e) e (vs_enums st).
+Proof. exact enum_registered. Qed.
 (* Generator: the stub of an enum is its signature and - when the record lists instances - a brace block with one line per
    listed instance, in the order of the record, each once (the name passes through emit_name like every other name) *)
 Theorem C03_enum_stub_lists_every_instance_once : forall nc e,
@@ -150,3 +155,4 @@ Print Assumptions C03_enum_stub_lists_every_instance_once.
 Print Assumptions C03_enum_statement_adds_assigned_names.
 Print Assumptions C03_front_enum_inventory.
 Print Assumptions C03_enum_instance_names_and_ids.
+Print Assumptions C03_front_enum_registered.
